@@ -38,6 +38,51 @@ class Unrepresentable(Exception):
     pass
 
 
+class Rec:
+    """What a worker process wants to tell the Run object of the main process."""
+
+    def __init__(self):
+        self.mc, self.fails, self.marks, self.samples, self.notes, self.divs = [], [], [], [], {}, []
+        self.traces = 0
+
+    def add_mc(self, r, label):
+        r.raw = ""
+        self.mc.append((r, label))
+
+    def fail(self, sig, what, case):
+        self.fails.append((sig, what, case))
+
+    def mark(self, key):
+        self.marks.append(key)
+
+    def sample(self, obj):
+        self.samples.append(obj)
+
+    def note(self, k, v):
+        self.notes[k] = v
+
+    def divergence(self, kind, obj):
+        self.divs.append((kind, obj))
+
+    def add_traces(self, n):
+        self.traces += n
+
+    def merge_into(self, run):
+        for r, label in self.mc:
+            run.add_mc(r, label)
+        for f in self.fails:
+            run.fail(*f)
+        for m in self.marks:
+            run.mark(m)
+        for x in self.samples:
+            run.sample(x)
+        for k, v in self.notes.items():
+            run.note(k, v)
+        for d in self.divs:
+            run.divergence(*d)
+        run.add_traces(self.traces)
+
+
 def units(x):
     if x is None:
         raise Unrepresentable("None")
@@ -238,9 +283,7 @@ def _f8_counterexample(run, isa):
         raise tlc.TLCError("MC_Compose_%s_f8: the deviation InPlaceRowExtension does not violate Inert" % isa)
     kern = re.findall(r"/\\ kern = <<([0-9, ]+)>>", r.raw)
     mi = re.findall(r"/\\ mi = (\d+)", r.raw)
-    d = r.as_dict()
-    d["label"] = "MC_Compose_%s_f8 (expected violation of Inert)" % isa
-    run.mc_runs.append(d)
+    run.add_mc(r, "MC_Compose_%s_f8 (expected violation of Inert)" % isa)
     return int(mi[-1]), [int(x) for x in kern[-1].split(",")]
 
 
@@ -282,11 +325,11 @@ def classify(run, cases, info, stage):
     """Trace_Compose on recorded kernels; every rejected kernel is reported."""
     if not cases:
         return
-    chunks = [cases[i:i + 2500] for i in range(0, len(cases), 2500)]
+    chunks = [cases[i:i + 1300] for i in range(0, len(cases), 1300)]
 
     def one(ix):
         return tlc.batch_validate("Trace_Compose", "Trace_Compose", chunks[ix], tag="c08-%s-%d" % (stage, ix), timeout=2400)
-    with concurrent.futures.ThreadPoolExecutor(min(4, len(chunks))) as ex:
+    with concurrent.futures.ThreadPoolExecutor(min(6, len(chunks))) as ex:
         results = list(ex.map(one, range(len(chunks))))
     byid = {c["id"]: c for c in cases}
     classes = run.extra.setdefault("rejected_by_class", {})
@@ -295,98 +338,105 @@ def classify(run, cases, info, stage):
         for cid, verdict, extra in rejects:
             c = byid[cid]
             devs, k0 = (extra[0], extra[1]) if len(extra) >= 2 else ([], 0)
-            sig = signature(c["model"]["isa"], stage, verdict, devs, k0, c["kernel"])
-            classes[sig] = classes.get(sig, 0) + 1
             inf = info.get(cid, {})
             what = "%s kernel %s: instruction %d %r -> %s%s; observed %s" % (
                 inf.get("where", stage), inf.get("lines"), k0, (inf.get("lines") or [None] * k0)[k0 - 1] if k0 else None,
                 verdict, (" " + "+".join(sorted(devs))) if devs else "",
                 canon_result(c["obs"][k0 - 1]) if k0 else "-")
-            run.fail(sig, what, dict(inf, case=c, verdict=verdict, devs=devs, position=k0))
+            # a kernel explained by several named deviations is reported once per deviation, so that
+            # every deviation has to be a known finding on its own
+            for dv in (sorted(devs) if verdict == "dev" else [None]):
+                sig = signature(c["model"]["isa"], stage, verdict, [dv] if dv else [], k0, c["kernel"])
+                classes[sig] = classes.get(sig, 0) + 1
+                run.fail(sig, what, dict(inf, case=c, verdict=verdict, devs=devs, position=k0))
 
 
 # ------------------------------------------------------------------------------------ R2
-def _r2(run, isa, tier, rnd):
-    cfg = "MC_Compose_%s%s" % (isa, "_k3" if tier == "thorough" else "")
-    r, hdr, recs = _run_cfg(cfg)
-    run.add_mc(r, cfg)
-    models = {h["mi"]: h["model"] for h in hdr}
-    instrs = hdr[0]["ins"]
-    if len(models) != 32:
-        raise tlc.TLCError("%s: %d model headers" % (cfg, len(models)))
-    by = {}
-    for rec in recs:
-        by.setdefault((rec["mi"], tuple(rec["kern"])), set()).add(tuple(canon_result(o) for o in rec["out"]))
-    maxk = 3 if tier == "thorough" else 2
-    expect = 32 * sum(len(instrs) ** k for k in range(1, maxk + 1))
-    if len(by) != expect:
-        raise tlc.TLCError("%s: terminal states for %d (model, kernel) pairs, expected %d" % (cfg, len(by), expect))
+def _r2(args):
+    isa, tier = args
+    run = Rec()
+    # (cfg, kernel length bound, only kernels of exactly this length are replayed (0 = all))
+    cfgs = [("MC_Compose_%s" % isa, 2, 0)]
+    if tier == "thorough":
+        cfgs.append(("MC_Compose_%s_k3" % isa, 3, 3))
     d = env.scratch("c08-r2-" + isa)
-    isaf = isa_forms_for(isa, instrs)
     bad_cases, info = [], {}
     n_run = 0
-    lines = {i: lc.render_line(isa, "".join(ins["n"]), ins["ops"], lc.FIRST) for i, ins in enumerate(instrs, 1)}
-    for mi in sorted(models):
-        model = models[mi]
-        a, i = write_model(d, model, isaf, "%d" % mi)
-        mm, sem, parser = synth.load(a, i)
-        tables = Tables(mm)
-        ports = _ports(model["np"])
-        protos = {}
-        for j, ins in enumerate(instrs, 1):
-            protos[j] = parser.parse_line(lines[j])
-            kinds = [lc.clean(project_written(isa, o)) for o in protos[j].operands]
-            if kinds != [lc.clean(k) for k in ins["ops"]]:
-                raise RuntimeError("rendering of %r does not parse to the intended kinds: %s" % (lines[j], kinds))
-        for (m2, kern), allowed in by.items():
-            if m2 != mi:
-                continue
-            try:
-                forms, res = run_kernel(sem, parser, tables, protos, kern, ports)
-            except Unrepresentable as ex:
-                run.fail("C08:%s:r2:unrepresentable" % isa, "value off the 1/12000 lattice: %s" % ex,
-                         {"mi": mi, "kern": kern})
-                continue
-            except Exception as ex:  # noqa
-                run.fail("C08:%s:exception:add_semantics:r2" % isa, "%s: kernel %s on model %d raised %s: %s" % (
-                    isa, [lines[x] for x in kern], mi, type(ex).__name__, ex), {"mi": mi, "kern": kern})
-                continue
-            n_run += 1
-            for f, x in zip(forms, kern):
-                if observed_roles(f) != instrs[x - 1]["roles"]:
-                    raise RuntimeError("roles of %r are %s, intended %s (ISA DB rendering)" % (
-                        lines[x], observed_roles(f), instrs[x - 1]["roles"]))
-            got = tuple(canon_result(o) for o in res)
-            if got not in allowed:
-                cid = "r2|%s|%d|%s" % (isa, mi, "-".join(map(str, kern)))
-                bad_cases.append({"id": cid, "model": model, "kernel": [instrs[x - 1] for x in kern], "obs": res})
-                info[cid] = {"where": "r2 model %d" % mi, "lines": [lines[x] for x in kern], "mi": mi, "kern": list(kern),
-                             "isa": isa}
-            if len(kern) > 1 and any(ins_class(instrs[x - 1]) != "nomem" for x in kern):
-                run.mark("r2|%s|%d|%s" % (isa, mi, kern))
+    models_all, instrs, lines, isaf = {}, None, None, None
+    for cfg, maxk, only_len in cfgs:
+        r, hdr, recs = _run_cfg(cfg)
+        run.add_mc(r, cfg)
+        models = {h["mi"]: h["model"] for h in hdr}
+        models_all.update(models)
+        instrs = hdr[0]["ins"]
+        by = {}
+        for rec in recs:
+            by.setdefault(rec["mi"], {}).setdefault(tuple(rec["kern"]), set()).add(tuple(canon_result(o) for o in rec["out"]))
+        expect = len(models) * sum(len(instrs) ** k for k in range(1, maxk + 1))
+        got_n = sum(len(v) for v in by.values())
+        if got_n != expect or not models:
+            raise tlc.TLCError("%s: terminal states for %d (model, kernel) pairs, expected %d" % (cfg, got_n, expect))
+        isaf = isa_forms_for(isa, instrs)
+        lines = {i: lc.render_line(isa, "".join(ins["n"]), ins["ops"], lc.FIRST) for i, ins in enumerate(instrs, 1)}
+        for mi in sorted(models):
+            model = models[mi]
+            a, i = write_model(d, model, isaf, "%s-%d" % (cfg, mi))
+            mm, sem, parser = synth.load(a, i)
+            tables = Tables(mm)
+            ports = _ports(model["np"])
+            protos = {}
+            for j, ins in enumerate(instrs, 1):
+                protos[j] = parser.parse_line(lines[j])
+                kinds = [lc.clean(project_written(isa, o)) for o in protos[j].operands]
+                if kinds != [lc.clean(k) for k in ins["ops"]]:
+                    raise RuntimeError("rendering of %r does not parse to the intended kinds: %s" % (lines[j], kinds))
+            for kern, allowed in by[mi].items():
+                if only_len and len(kern) != only_len:
+                    continue
+                try:
+                    forms, res = run_kernel(sem, parser, tables, protos, kern, ports)
+                except Unrepresentable as ex:
+                    run.fail("C08:%s:r2:unrepresentable" % isa, "value off the 1/12000 lattice: %s" % ex,
+                             {"mi": mi, "kern": kern, "lines": [lines[x] for x in kern]})
+                    continue
+                except Exception as ex:  # noqa
+                    run.fail("C08:%s:exception:add_semantics:r2" % isa, "%s: kernel %s on model %d raised %s: %s" % (
+                        isa, [lines[x] for x in kern], mi, type(ex).__name__, ex),
+                        {"mi": mi, "kern": kern, "lines": [lines[x] for x in kern]})
+                    continue
+                n_run += 1
+                for f, x in zip(forms, kern):
+                    if observed_roles(f) != instrs[x - 1]["roles"]:
+                        raise RuntimeError("roles of %r are %s, intended %s (ISA DB rendering)" % (
+                            lines[x], observed_roles(f), instrs[x - 1]["roles"]))
+                got = tuple(canon_result(o) for o in res)
+                if got not in allowed:
+                    cid = "r2|%s|%d|%s" % (isa, mi, "-".join(map(str, kern)))
+                    bad_cases.append({"id": cid, "model": model, "kernel": [instrs[x - 1] for x in kern], "obs": res})
+                    info[cid] = {"where": "r2 model %d" % mi, "lines": [lines[x] for x in kern], "mi": mi,
+                                 "kern": list(kern), "isa": isa}
+                if len(kern) > 1 and sum(1 for x in kern if ins_class(instrs[x - 1]) != "nomem") > 1:
+                    run.mark("r2|%s|%d|%s" % (isa, mi, kern))
     run.add_traces(n_run)
-    run.sample({"stage": "r2", "isa": isa, "kernel": [lines[1], lines[5]], "models": len(models)})
-    classify(run, bad_cases, info, "r2")
+    run.sample({"stage": "r2", "isa": isa, "kernel": [lines[1], lines[5]], "models": len(models_all)})
     # the deviation switched on in the model: TLC's counterexample must be reproducible on the code
+    f8 = None
     mi, kern = _f8_counterexample(run, isa)
-    model = models[mi]
-    a, i = write_model(d, model, isaf, "f8-%d" % mi)
-    mm, sem, parser = synth.load(a, i)
-    protos = {j: parser.parse_line(lines[j]) for j in range(1, len(instrs) + 1)}
-    forms, res = run_kernel(sem, parser, Tables(mm), protos, kern, _ports(model["np"]))
-    cid = "r2-f8|%s|%d|%s" % (isa, mi, "-".join(map(str, kern)))
-    case = {"id": cid, "model": model, "kernel": [instrs[x - 1] for x in kern], "obs": res}
-    rej, rr = tlc.batch_validate("Trace_Compose", "Trace_Compose", [case], tag="c08-f8")
-    run.add_mc(rr, "Trace_Compose_f8_%s" % isa)
-    if rej:
-        classify(run, [case], {cid: {"where": "counterexample of MC_Compose_%s_f8" % isa,
-                                     "lines": [lines[x] for x in kern], "isa": isa}}, "r2-f8")
-        run.note("f8_counterexample_%s" % isa, {"kernel": [lines[x] for x in kern], "model": mi, "reproduced": True})
-    else:
-        run.divergence("model_divergence", {"what": "counterexample of the deviating model not reproduced on the code",
-                                            "kernel": [lines[x] for x in kern], "mi": mi})
-        run.note("f8_counterexample_%s" % isa, {"kernel": [lines[x] for x in kern], "model": mi, "reproduced": False})
-    return n_run
+    model = models_all[mi]
+    try:
+        a, i = write_model(d, model, isaf, "f8-%d" % mi)
+        mm, sem, parser = synth.load(a, i)
+        protos = {j: parser.parse_line(lines[j]) for j in range(1, len(instrs) + 1)}
+        forms, res = run_kernel(sem, parser, Tables(mm), protos, kern, _ports(model["np"]))
+        cid = "r2-f8|%s|%d|%s" % (isa, mi, "-".join(map(str, kern)))
+        case = {"id": cid, "model": model, "kernel": [instrs[x - 1] for x in kern], "obs": res}
+        f8 = (case, {cid: {"where": "counterexample of MC_Compose_%s_f8" % isa, "lines": [lines[x] for x in kern],
+                           "isa": isa, "mi": mi}})
+    except Exception as ex:  # noqa
+        run.fail("C08:%s:exception:add_semantics:r2-f8" % isa, "kernel %s raised %s: %s" % (
+            [lines[x] for x in kern], type(ex).__name__, ex), {"mi": mi, "kern": kern})
+    run.note("r2_kernels_%s" % isa, n_run)
+    return isa, run, bad_cases, info, f8
 
 
 # ------------------------------------------------------------------------------------ R3: random models
@@ -419,7 +469,9 @@ def _rand_written_mem(isa, rnd):
     return lc.K("mem", b=dflt, o=o, i=i, sc=(rnd.choice(["1", "n"]) if i else "1"), pre=pre, post=post)
 
 
-def _r3_random(run, isa, seed, n_models, n_kernels):
+def _r3_random(args):
+    isa, seed, n_models, n_kernels = args
+    run = Rec()
     rnd = random.Random("%s-c08-r3-%s" % (seed, isa))
     d = env.scratch("c08-r3-" + isa)
     cases, info = [], {}
@@ -529,7 +581,7 @@ def _r3_random(run, isa, seed, n_models, n_kernels):
             info[cid] = {"where": "random model %d" % mi, "lines": lines, "isa": isa}
             if len(kernel) > 1 and sum(1 for x in kernel if ins_class(x) != "nomem") > 1:
                 run.mark(cid)
-    return cases, info
+    return isa, run, cases, info
 
 
 # ------------------------------------------------------------------------------------ R3: shipped vocabulary
@@ -616,12 +668,10 @@ def _shipped_worker(args):
                     ents.append({"n": list(nm), "ops": [lc.clean(k) for k in kinds], "tp": units(o.throughput),
                                  "lat": units(o.latency), "u": uops_of(o.port_pressure)})
             tyrec = []
-            for t in sorted(tyset):
+            for t in sorted((tyset | set(mm._data["load_latency"].keys())) - {"*"}):
                 ll = mm._data["load_latency"].get(t)
-                if ll is None and t != "*":
+                if ll is None:
                     ll = 0
-                if t == "*":
-                    continue
                 tyrec.append({"ty": t, "lat": units(ll), "lm": int(round(2 * lm[t])) if lm and t in lm else 2,
                               "sm": int(round(2 * sm[t])) if sm and t in sm else 2})
             model = {"isa": isa, "np": len(ports), "entries": ents, "ld": ld, "ldd": ldd, "st": st, "std": std,
@@ -654,9 +704,7 @@ def _r3_shipped_start(tier):
     else:
         archs = [(a, "x86") for a in env.X86_ARCHS] + [(a, "aarch64") for a in env.ARM_ARCHS]
     env.warm_models([a for a, _ in archs])
-    ex = concurrent.futures.ProcessPoolExecutor(max_workers=min(8, len(archs)))
-    futs = [ex.submit(_shipped_worker, (a, isa, vocab[isa])) for a, isa in archs]
-    return ex, futs
+    return [(a, isa, vocab[isa]) for a, isa in archs]
 
 
 def main(tier, seed):
@@ -669,29 +717,53 @@ def main(tier, seed):
                 "vocabulary on shipped models, validated by Trace_Compose; non-trivial = a kernel with at least two "
                 "instructions that have a memory operand")
     t0 = time.time()
-    pool, futs = _r3_shipped_start(tier)
-    with concurrent.futures.ThreadPoolExecutor(2) as ex:
-        r2f = {isa: ex.submit(_r2, run, isa, tier, rnd) for isa in ("x86", "aarch64")}
-        n_models, n_kernels = (6, 40) if tier == "quick" else (30, 120)
-        cases, info = [], {}
-        for isa in ("x86", "aarch64"):
-            cs, inf = _r3_random(run, isa, seed, n_models, n_kernels)
-            cases += cs
-            info.update(inf)
-        run.note("r3_random_kernels", len(cases))
-        run.note("t_r3_random_s", round(time.time() - t0, 1))
-        for isa, f in r2f.items():
-            run.note("r2_kernels_%s" % isa, f.result())
-    run.note("t_r2_s", round(time.time() - t0, 1))
-    t0 = time.time()
+    ship_args = _r3_shipped_start(tier)
+    n_models, n_kernels = (6, 40) if tier == "quick" else (30, 120)
+    pool = concurrent.futures.ProcessPoolExecutor(max_workers=12)
+    f_r2 = [pool.submit(_r2, (isa, tier)) for isa in ("x86", "aarch64")]
+    f_rand = [pool.submit(_r3_random, (isa, seed, n_models, n_kernels)) for isa in ("x86", "aarch64")]
+    f_ship = [pool.submit(_shipped_worker, a) for a in ship_args]
+    cases, info = [], {}
+    for f in f_rand:
+        isa, rec, cs, inf = f.result()
+        rec.merge_into(run)
+        cases += cs
+        info.update(inf)
+    run.note("r3_random_kernels", len(cases))
+    run.note("t_r3_random_s", round(time.time() - t0, 1))
     skipped = {}
-    for f in futs:
+    for f in f_ship:
         arch, cs, inf, sk = f.result()
         cases += cs
         info.update(inf)
         if sk:
             skipped[arch] = [(" ; ".join(k) if isinstance(k, list) else k, why) for k, why in sk][:8]
+    r2_bad, r2_info, f8s = [], {}, []
+    for f in f_r2:
+        isa, rec, bad, inf, f8 = f.result()
+        rec.merge_into(run)
+        r2_bad += bad
+        r2_info.update(inf)
+        f8s.append((isa, f8))
     pool.shutdown()
+    run.note("t_r2_s", round(time.time() - t0, 1))
+    t0 = time.time()
+    run.note("r2_kernels_not_in_emitted_set", len(r2_bad))
+    classify(run, r2_bad, r2_info, "r2")
+    for isa, f8 in f8s:
+        if f8 is None:
+            continue
+        case, inf = f8
+        before = len(run.violations) + sum(h["count"] for h in run.known_hits.values())
+        classify(run, [case], inf, "r2-f8")
+        after = len(run.violations) + sum(h["count"] for h in run.known_hits.values())
+        i = list(inf.values())[0]
+        run.note("f8_counterexample_%s" % isa, {"kernel": i["lines"], "model": i["mi"], "reproduced": after > before})
+        if after == before:
+            run.divergence("model_divergence", {"what": "counterexample of the deviating model not reproduced on the code",
+                                                "kernel": i["lines"], "mi": i["mi"]})
+    run.note("t_r2_classify_s", round(time.time() - t0, 1))
+    t0 = time.time()
     run.note("r3_shipped_skipped", skipped)
     run.note("r3_total_kernels", len(cases))
     classify(run, cases, info, "r3")
